@@ -182,7 +182,7 @@ def verify_contract(qn, timeout_ms, only_variant=None):
                     if isinstance(sh, _Const):
                         pyvals.setdefault(k, sh.value)
                         m.setdefault(k, repr(sh.value))
-                has_obj = any(r[0] == "o" for r in recipes.values())
+                has_obj = any(r[0] in ("o", "d", "ll") for r in recipes.values())
                 if vals_ok and not has_obj and not any("." in k for k in pyvals):
                     try:
                         rec["replay"] = replay_model(program, con, f, node, pyvals)
@@ -218,10 +218,14 @@ def _recipe(ip, v):
         return ("i", v.i)
     if isinstance(v, ZSeq):
         return ("s", v.s, v.kind)
+    if isinstance(v, LList) and v.concrete:
+        return ("ll", [_recipe(ip, i) for i in v.items])
     if isinstance(v, LList):
         return ("l", ip.seq_of(v))
     if isinstance(v, LTuple):
         return ("t", [_recipe(ip, i) for i in v.items])
+    if isinstance(v, LDict):
+        return ("d", [(_recipe(ip, k), _recipe(ip, x)) for k, x in v.pairs])
     if isinstance(v, C):
         return ("c", v.v)
     if isinstance(v, SObj):
@@ -244,6 +248,10 @@ def build_from_recipe(program, model, r):
         return tuple(items) if tag == "s" and r[2] == "tuple" else list(items)
     if tag == "t":
         return tuple(build_from_recipe(program, model, i) for i in r[1])
+    if tag == "ll":
+        return [build_from_recipe(program, model, i) for i in r[1]]
+    if tag == "d":
+        return {_hashable(build_from_recipe(program, model, k)): build_from_recipe(program, model, x) for k, x in r[1]}
     if tag == "c":
         return r[1]
     if tag == "o":
@@ -426,6 +434,9 @@ def _run_one(ip, path, con, f, node, variant, vi):
             for an, av in v.attrs.items():
                 if isinstance(av, Z):
                     params[f"{pn}.{an}"] = av.t
+    for extra, sh in variant.items():           # ghost parameters of a family member (used by the clauses only)
+        if extra not in pnames and extra.startswith("_"):
+            env[extra] = sh.make(ip, extra) if isinstance(sh, Shape) else ip.wrap(sh)
     if node.args.vararg is not None:
         sh = shapes.get(node.args.vararg.arg)
         if sh is not None:
@@ -655,7 +666,8 @@ def run_property(prop, tier, seed):
         for k in ("assumptions", "inlined", "contract_calls"):
             m[k] = sorted(set(m[k]) | set(r[k]))
         m["fault"] = m["fault"] or r["fault"]
-        m["unsupported"] = m["unsupported"] or r["unsupported"]
+        if r["unsupported"]:
+            m.setdefault("unsupported_variants", []).append(r["unsupported"])
     results = [merged[qn] for qn in mine]
     return summarise(prop, tier, results, time.time() - t0, contracts)
 
@@ -681,6 +693,8 @@ def summarise(prop, tier, results, wall, contracts):
             undecided.append({"function": r["qualname"], "reason": r["unsupported"]})
             continue
         fn.update({"status": "under-contract", "paths": r["paths"], "inlined": r["inlined"], "uses_contracts_of": r["contract_calls"]})
+        for u in r.get("unsupported_variants", []):
+            undecided.append({"function": r["qualname"], "variant": "one family member", "reason": u})
         nf = 0
         for ob in r["obligations"]:
             if ob["kind"] == "canary":
